@@ -1,10 +1,58 @@
 /-
   EG.Driver.Sector — model side of the `sector.*` correspondence streams (harness/src/m_sector.rs).
+
+    sector.points x y d start_mdeg sweep_mdeg tag lx ly rx ry
+        -> ps=<tag,lx,ly,rx,ry> bb=<bounding box> pts=<Sector::points()> in=<Sector::contains() bitmap,
+           row-major, over the bounding box grown by 2 px>
+    sector.arc x y d start_mdeg sweep_mdeg tag lx ly rx ry
+        -> ps=<tag,lx,ly,rx,ry> bb=<bounding box> pts=<Arc::points()>
+
+  `tag lx ly rx ry` is what the real `PlaneSector::new(start, sweep)` computed (hook
+  `verif_hooks::plane_sector`, written into the op line by the harness generator); the angles
+  themselves are not used by the model (trigonometry is not modelled).
 -/
 import EG.Driver.Util
+import EG.Model.Sector
 namespace EG.Driver
 open EG
 
-def handleSector (_stream : String) (_t : Toks) : Option String := none
+private def opOfTag : Nat → PlaneOp
+  | 0 => .intersection
+  | 1 => .union
+  | _ => .entirePlane
+
+private def tagOfOp : PlaneOp → Nat
+  | .intersection => 0
+  | .union => 1
+  | .entirePlane => 2
+
+private def fmtPlaneSector (ps : PlaneSector) : String :=
+  s!"{tagOfOp ps.op},{ps.left.x},{ps.left.y},{ps.right.x},{ps.right.y}"
+
+/-- `x y d start sweep tag lx ly rx ry` -/
+private def parseSectorArgs (t : Toks) : Pt × Nat × PlaneSector :=
+  let (tl, t) := t.pt
+  let (d, t) := t.nat
+  let (_start, t) := t.int
+  let (_sweep, t) := t.int
+  let (tag, t) := t.nat
+  let (l, t) := t.pt
+  let (r, _) := t.pt
+  (tl, d, ⟨opOfTag tag, l, r⟩)
+
+def handleSector (stream : String) (t : Toks) : Option String :=
+  match stream with
+  | "sector.points" =>
+    let (tl, d, ps) := parseSectorArgs t
+    let s : Sector := ⟨tl, d, ps⟩
+    let ys := irange (tl.y - 2) (tl.y + d + 2)
+    let xs := irange (tl.x - 2) (tl.x + d + 2)
+    let bits := ys.flatMap (fun y => xs.map (fun x => s.contains ⟨x, y⟩))
+    some s!"ps={fmtPlaneSector ps} bb={fmtRect s.boundingBox} pts={fmtPts s.points} in={fmtBits bits}"
+  | "sector.arc" =>
+    let (tl, d, ps) := parseSectorArgs t
+    let a : Arc := ⟨tl, d, ps⟩
+    some s!"ps={fmtPlaneSector ps} bb={fmtRect a.boundingBox} pts={fmtPts a.points}"
+  | _ => none
 
 end EG.Driver
